@@ -2,6 +2,8 @@ package main
 
 import (
 	"fmt"
+
+	rwp "github.com/SKAARHOJ/rawpanel-lib/ibeam_rawpanel"
 )
 
 func init() {
@@ -178,6 +180,45 @@ func genC11(tier string, rng *Rng) {
 			sc := &Scenario{Cancel: c, Conns: []ConnScript{lost, goodConn(3)}, Sensitive: true}
 			add("cancel-random", sc)
 		}
+	}
+	// ---- cancellation while the read loop is NOT inside a read: a complete frame / line has arrived,
+	// the application picks it up late (RecvFrom), the cancel falls in between (seed C11-7: the writer
+	// arming an expired read deadline instead of closing the socket is undone by the reader's next
+	// deadline reset, the call never returns).  The frame is still delivered once, then the cancelled
+	// disconnect, the return, the drained wait group and the closed socket.
+	for _, asc := range []bool{false, true} {
+		for _, tm := range [][3]int{{300, 700, 1000}, {300, 400, 1800}, {100, 1200, 1500}} {
+			cs := goodConn()
+			ev := good(5)
+			if asc {
+				cs = goodAscConn()
+				ev = ascLine("HWC#5=Down")
+			}
+			cs.Items = append(cs.Items, ev)
+			cs.Segs = append(cs.Segs, SegCut{tm[0], len(ev.Encode())})
+			add("cancel-consumer-slow", &Scenario{Cancel: tm[1], RecvFrom: tm[2], Conns: []ConnScript{cs}})
+		}
+	}
+	// ---- submissions while the connection is dying: the panel closes completely (writes now fail with
+	// EPIPE / RST) and the application keeps submitting during the ASCII end-of-stream pause and during the
+	// retry wait; a failed write is not a cancellation: disconnect(false), reconnect after the period,
+	// delivery resumes (seed C11-8)
+	for _, asc := range []bool{false, true} {
+		first := goodConn(1)
+		second := goodConn(2)
+		redial := 300 + 1000
+		if asc {
+			first = goodAscConn("HWC#1=Down")
+			second = goodAscConn("HWC#2=Down")
+			redial = 300 + 2000
+		}
+		first.End, first.EndT = "fullclose", 300
+		var list []Submission
+		for j := 0; j < 8; j++ {
+			m := &rwp.InboundMessage{FlowMessage: rwp.InboundMessage_PING}
+			list = append(list, Submission{Msgs: []*rwp.InboundMessage{m}, Delay: 150})
+		}
+		add("submit-while-dying", &Scenario{Cancel: redial + 900, Conns: []ConnScript{first, second}, Subs: [][]Submission{list}, SubStart: 250})
 	}
 	// ---- several connections, the panel changing its behaviour from one to the next (matrix.go)
 	for _, sc := range matrixScenarios(tier, false) {
